@@ -20,7 +20,9 @@ def arg(t, v):
 # (module, field) names as they may appear in a binary: the resolver must receive exactly these bytes.  Non-ASCII
 # bytes followed by hexadecimal digits, octal digits, quotes, backslashes, trigraph and format characters.
 WIRE = [("env", "m e m"), ("donn\u00e9es", "base"), ("t\u00eate", "\u00e9a1"), ("a\"b", "c\\d"), ("??/", "%s%n"), ("\x01\x7f", "\u00ff0"),
-        ("m\u00fc7", "\u2603f00d"), ("", "x"), ("x", " "), ("\t", "\n9"), ("caf\u00e9", "\u00e9\u00e9e9"), ("\u20acb", "\U0001f600c0de")]
+        ("m\u00fc7", "\u2603f00d"), ("", "x"), ("x", " "), ("\t", "\n9"), ("caf\u00e9", "\u00e9\u00e9e9"), ("\u20acb", "\U0001f600c0de"),
+        # code points at the boundaries of the UTF-8 encoding (the last before the surrogates, the first after, the last of all)
+        ("\ud55c\uae00", "\ud7ff1"), ("\U0010ffff", "\ue000\uffffa"), ("\u07ff\u0800", "\u007f\u0080")]
 
 
 def wire(rng, im, used):
